@@ -1,5 +1,6 @@
 import AasVerif.Lemmas.LenMerge
 import AasVerif.Lemmas.Infer
+import AasVerif.Lemmas.InferSem
 /-!
 # C15 — Schema constraint inference equals the invariant conjunction
 (and the `Len` no-crash theorems that C02 reuses)
@@ -138,5 +139,47 @@ theorem mergePats_mem (a b : List Nat) (x : Nat) : x ∈ mergePats a b ↔ x ∈
 /-- … and lists every pattern once. -/
 theorem mergePats_nodup (a b : List Nat) : (mergePats a b).Nodup :=
   nodup_dedupAux [] (a ++ b)
+
+
+/-! ## The recognisers never misread an invariant -/
+
+/-- Whatever `len_constraints_from_invariants`, `patterns_from_invariants` and
+`infer_set_constraints_by_property_from_invariants` infer from one invariant of a class (`recognise`:
+plain form, `self.p is None or …`, `not (self.p is not None) or …`, conjunctions, `len(self.p) op c` in both
+operand orders, pattern verification calls, `self.p in CONSTANT_SET`) is implied by the invariant: in every
+environment in which the invariant evaluates to `True` (Python semantics with short-circuiting), the
+property is `None` or its value satisfies the inferred constraint.  Assumptions on the environment
+(`Env.OK`): properties hold `None` or data; a pattern verification function decides its pattern. -/
+theorem recognised_implied (env : Env) (pats : List (Ident × Nat)) (hok : env.OK pats)
+    (inv : Expr) (p : Ident) (k : K)
+    (hk : (p, k) ∈ recognise pats inv) (he : eval env inv = some (.bool true)) :
+    env.props p = some .none ∨ ∃ t, env.props p = some (.data t) ∧ k.holds env t :=
+  recognise_sound env pats hok inv p k hk he
+
+/-- A guard on *another* property makes the invariant unrecognised (the repaired defect):
+`self.a is None or len(self.b) < 5` yields nothing, while the same guard on `b` yields `len(b) ≤ 4`. -/
+example : recognise [] (.or [.isNone (.member (.name idSelf) 7),
+      .cmp .lt (.call idLen [.member (.name idSelf) 8]) (.const 5)]) = [] := by rfl
+
+example : recognise [] (.or [.isNone (.member (.name idSelf) 8),
+      .cmp .lt (.call idLen [.member (.name idSelf) 8]) (.const 5)]) = [(8, K.len (.max 4))] := by rfl
+
+/-- Non-vacuity of `recognised_implied`: an environment satisfying `Env.OK` in which a guarded
+invariant evaluates to `True` on a non-`None` value. -/
+example :
+    let env : Env := { props := fun p => if p = 8 then some (.data [97, 98]) else some .none,
+                       names := fun _ => none, others := fun _ => none, fn := fun _ _ => none,
+                       sets := fun _ => none, matchesPat := fun _ _ => false }
+    env.OK [] ∧
+    eval env (.or [.isNone (.member (.name idSelf) 8),
+      .cmp .lt (.call idLen [.member (.name idSelf) 8]) (.const 5)]) = some (.bool true) := by
+  refine ⟨⟨?_, ?_⟩, by rfl⟩
+  · intro p v h
+    simp only at h
+    split at h <;> cases h
+    · exact Or.inr ⟨_, rfl⟩
+    · exact Or.inl rfl
+  · intro f k t h
+    simp [lookupId] at h
 
 end AasVerif.Props.C15
